@@ -49,11 +49,27 @@
 #include <sstream>
 #include <string>
 #include <unistd.h>
+#include <pthread.h>
 
 using namespace bfl;
 using namespace Eigen;
 
 static std::atomic<long> g_steps{0};      // relaxed counters: no synchronisation for TSan
+// the harness's model objects (user code from the library's point of view) belong to the filtering thread once the
+// filter is booted: a call of one of their virtual functions made by the controller (= main) thread is counted
+static std::atomic<long> g_foreign_model_calls{0};
+static const pthread_t g_main_thread = pthread_self();
+static std::atomic<bool> g_booted{false};
+static std::atomic<long> g_foreign_hook_calls{0};
+// the same for the hooks of the harness's filters (initialization_step / filtering_step / run_condition / log)
+static inline void hook_call() {
+    if (g_booted.load(std::memory_order_relaxed) && pthread_equal(pthread_self(), g_main_thread))
+        g_foreign_hook_calls.fetch_add(1, std::memory_order_relaxed);
+}
+static inline void model_call() {
+    if (g_booted.load(std::memory_order_relaxed) && pthread_equal(pthread_self(), g_main_thread))
+        g_foreign_model_calls.fetch_add(1, std::memory_order_relaxed);
+}
 static const int N = 2;                   // state size
 static const int M = 1;                   // measurement size
 static const int NP = 12;                 // particles
@@ -64,7 +80,7 @@ static MatrixXd matH() { MatrixXd H(M, N); H << 1.0, 0.5; return H; }
 static MatrixXd matR() { MatrixXd R(M, M); R << 0.2; return R; }
 
 struct HExo : public ExogenousModel {
-    void propagate(const Ref<const MatrixXd>& cur, Ref<MatrixXd> prop) override { prop = MatrixXd::Constant(cur.rows(), cur.cols(), 0.01); }
+    void propagate(const Ref<const MatrixXd>& cur, Ref<MatrixXd> prop) override { model_call(); prop = MatrixXd::Constant(cur.rows(), cur.cols(), 0.01); }
     bool setProperty(const std::string&) override { return false; }
     VectorDescription getStateDescription() const override { return VectorDescription(N); }
 };
@@ -75,6 +91,7 @@ struct HState : public LTIStateModel {
     }
     VectorDescription getStateDescription() override { return VectorDescription(N); }
     MatrixXd getNoiseSample(const std::size_t num) override {
+        model_call();
         MatrixXd s(N, num);
         for (long j = 0; j < s.cols(); ++j) for (long i = 0; i < N; ++i) s(i, j) = 0.2 * dist_(gen_);
         return s;
@@ -90,8 +107,8 @@ struct HState : public LTIStateModel {
 
 struct HMeas : public LTIMeasurementModel {
     HMeas() : LTIMeasurementModel(matH(), matR()) {}
-    bool freeze(const Data&) override { ++k_; return true; }
-    std::pair<bool, Data> measure(const Data&) const override { MatrixXd y(M, 1); y << 1.0 + 0.1 * std::sin(0.01 * k_); return std::make_pair(true, Data(y)); }
+    bool freeze(const Data&) override { model_call(); ++k_; return true; }
+    std::pair<bool, Data> measure(const Data&) const override { model_call(); MatrixXd y(M, 1); y << 1.0 + 0.1 * std::sin(0.01 * k_); return std::make_pair(true, Data(y)); }
     VectorDescription getInputDescription() const override { return VectorDescription(N, 0, M); }
     VectorDescription getMeasurementDescription() const override { return VectorDescription(M); }
     long k_ = 0;
@@ -99,6 +116,7 @@ struct HMeas : public LTIMeasurementModel {
 
 struct HLik : public LikelihoodModel {
     std::pair<bool, VectorXd> likelihood(const MeasurementModel& mm, const Ref<const MatrixXd>& states) override {
+        model_call();
         bool ok; Data y; std::tie(ok, y) = mm.measure();
         MatrixXd yy = any::any_cast<MatrixXd>(y);
         MatrixXd H = matH();
@@ -110,6 +128,7 @@ struct HLik : public LikelihoodModel {
 
 struct HInit : public ParticleSetInitialization {
     bool initialize(ParticleSet& p) override {
+        model_call();
         for (long i = 0; i < p.state().cols(); ++i) {
             p.state(i) << 0.1 * (i % 5), -0.1 * (i % 3);
             p.mean(i) = p.state(i);
@@ -127,8 +146,9 @@ public:
         : GaussianFilter(std::move(p), std::move(c)), pred_(N), corr_(N) { }
 protected:
     // the run condition reads plain state that filtering_step() mutates (both hooks belong to the filtering thread)
-    bool run_condition() override { return budget_ > 0 && step_number() < 2000000000u; }
+    bool run_condition() override { hook_call(); return budget_ > 0 && total_left_ > 0 && step_number() < 2000000000u; }
     bool initialization_step() override {
+        hook_call();
         corr_.mean() << 0.5, -0.5;
         corr_.covariance() = 0.3 * MatrixXd::Identity(N, N);
         budget_ = 2000000000L;
@@ -136,23 +156,27 @@ protected:
         return true;
     }
     void filtering_step() override {
+        hook_call();
         prediction().predict(corr_, pred_);
         correction().freeze_measurements();
         correction().correct(pred_, corr_);
         if (!(corr_.covariance().allFinite() && corr_.mean().allFinite() && corr_.covariance().trace() < 1e6)) initialization_step();
         log();
         --budget_;
+        --total_left_;
         g_steps.fetch_add(1, std::memory_order_relaxed);
     }
     std::vector<std::string> log_file_names(const std::string& folder_path, const std::string& file_name_prefix) override {
         return { folder_path + "/" + file_name_prefix + "_pred_mean", folder_path + "/" + file_name_prefix + "_cor_mean" };
     }
-    void log() override { logger(pred_.mean().transpose(), corr_.mean().transpose()); }
+    void log() override { hook_call(); logger(pred_.mean().transpose(), corr_.mean().transpose()); }
 public:
     double result() const { return corr_.mean()(0) + corr_.covariance()(0, 0) + pred_.mean()(0); }   // owner reads the estimate
     void fail_initialisation(int times, long delay_us) { fail_inits_ = times; init_delay_us_ = delay_us; }   // before boot()
+    void limit_steps(long n) { total_left_ = n; }                                                        // before boot()
 private:
     long budget_ = 2000000000L;
+    long total_left_ = 2000000000L;          // plain state of the filtering thread; not refilled by the initialisation
     int fail_inits_ = 0;
     long init_delay_us_ = 0;
 private:
@@ -163,19 +187,22 @@ class HSis : public SIS {
 public:
     using SIS::SIS;
 protected:
-    void filtering_step() override { SIS::filtering_step(); --left_; g_steps.fetch_add(1, std::memory_order_relaxed); }
-    bool run_condition() override { return left_ > 0; }       // plain state mutated by the step
+    void filtering_step() override { hook_call(); SIS::filtering_step(); --left_; --total_left_; g_steps.fetch_add(1, std::memory_order_relaxed); }
+    bool run_condition() override { hook_call(); return left_ > 0 && total_left_ > 0; }       // plain state mutated by the step
     bool initialization_step() override {
+        hook_call();
         left_ = 2000000000L;
         bool ok = SIS::initialization_step();
         if (fail_inits_ > 0) { --fail_inits_; usleep(init_delay_us_); return false; }
         return ok;
     }
     long left_ = 2000000000L;
+    long total_left_ = 2000000000L;          // not refilled by the initialisation
     int fail_inits_ = 0;
     long init_delay_us_ = 0;
 public:
     void fail_initialisation(int times, long delay_us) { fail_inits_ = times; init_delay_us_ = delay_us; }
+    void limit_steps(long n) { total_left_ = n; }
 public:
     double result() const { return pred_particle_.state(0, 0) + pred_particle_.weight(0) + cor_particle_.weight(0); }   // owner reads the particles
 };
@@ -251,6 +278,7 @@ static std::string run_case(const std::string& kind, unsigned seed, long rounds,
     std::mt19937 r(seed * 7919u + 13u);
     Ctl c(*f);
     g_steps.store(0, std::memory_order_relaxed);
+    g_booted.store(true, std::memory_order_relaxed);
     if (!f->boot()) return "boot-failed";
     c.is_running(); c.step_number();                 // queries before the first run()
     c.run();
@@ -306,6 +334,7 @@ static std::string run_extlog(const std::string& kind, unsigned seed, const std:
     if (!f) return "bad-kind";
     g_steps.store(0, std::memory_order_relaxed);
     f->enable_log(logdir, "ext_" + kind);
+    g_booted.store(true, std::memory_order_relaxed);
     if (!f->boot()) return "boot-failed";
     f->run(); let_it_step(3);
     for (int i = 0; i < 6; ++i) { f->disable_log(); let_it_step(2); f->enable_log(logdir, "ext_" + kind); let_it_step(2); }
@@ -322,6 +351,7 @@ static std::string run_initfail(const std::string& kind, unsigned seed) {
     if (HGauss* g = dynamic_cast<HGauss*>(f.get())) g->fail_initialisation(2, 1500);
     if (HSis* s = dynamic_cast<HSis*>(f.get())) s->fail_initialisation(2, 1500);
     g_steps.store(0, std::memory_order_relaxed);
+    g_booted.store(true, std::memory_order_relaxed);
     if (!f->boot()) return "boot-failed";
     f->run();
     usleep(300 + seed % 900);             // the first initialisation is in progress
@@ -335,6 +365,54 @@ static std::string run_initfail(const std::string& kind, unsigned seed) {
     return os.str();
 }
 
+// every command while the filtering thread leaves its recursion for good and after it has ended, before the
+// join: the thread's last accesses (its exit path) against run / reset / reboot / teardown / queries / skip.
+//   mode teardown: the controller asks for the end;  mode expire: the run condition turns false by itself
+//   (total step budget, not refilled by the initialisations the resets / reboots cause)
+static std::string run_exit(const std::string& kind, unsigned seed, const std::string& mode) {
+    std::unique_ptr<FilteringAlgorithm> f = make(kind, seed);
+    if (!f) return "bad-kind";
+    const long budget = 30 + static_cast<long>(seed % 40);
+    if (mode == "expire") {
+        if (HGauss* g = dynamic_cast<HGauss*>(f.get())) g->limit_steps(budget);
+        if (HSis* s = dynamic_cast<HSis*>(f.get())) s->limit_steps(budget);
+    }
+    std::mt19937 r(seed * 104729u + 7u);
+    Ctl c(*f);
+    g_steps.store(0, std::memory_order_relaxed);
+    g_booted.store(true, std::memory_order_relaxed);
+    if (!f->boot()) return "boot-failed";
+    c.run();
+    let_it_step(3);
+    if (mode == "teardown") c.teardown();
+    long after_end = 0;
+    for (int i = 0; i < 4000 && after_end < 12; ++i) {
+        switch (r() % 7) {
+            case 0: c.reboot(); c.is_running(); c.run(); break;
+            case 1: c.reboot(); c.step_number(); c.run(); break;
+            case 2: c.reset(); break;
+            case 3: c.skip(static_cast<int>(r() % 5), (r() & 1u) != 0); break;
+            case 4: c.is_running(); c.step_number(); break;
+            case 5: c.run(); break;
+            default: c.reboot(); c.run(); break;
+        }
+        usleep(static_cast<useconds_t>(r() % 60));
+        // (relaxed counter: no synchronisation) the thread has used up its budget / was asked to end
+        if (mode == "teardown" || g_steps.load(std::memory_order_relaxed) >= budget) ++after_end;
+    }
+    c.reboot(); c.run(); c.reset();           // once more, certainly after the thread's exit path has begun
+    usleep(2000);
+    c.reboot(); c.is_running(); c.step_number();
+    if (mode != "teardown") c.teardown();     // (a filter parked by the last reboot() must be let go)
+    c.wait();
+    (void) f->is_running(); (void) f->step_number();
+    std::ostringstream os;
+    os << "ok exit kind=" << kind << " mode=" << mode << " steps=" << g_steps.load(std::memory_order_relaxed) << " cmds=" << c.total();
+    return os.str();
+}
+
+static std::string fin(const std::string& o) { return o + " foreign_model_calls=" + std::to_string(g_foreign_model_calls.load(std::memory_order_relaxed)) + " foreign_hook_calls=" + std::to_string(g_foreign_hook_calls.load(std::memory_order_relaxed)); }
+
 static double read_result(FilteringAlgorithm* f) {
     if (HGauss* g = dynamic_cast<HGauss*>(f)) return g->result();
     if (HSis* s = dynamic_cast<HSis*>(f)) return s->result();
@@ -345,6 +423,7 @@ static std::string run_afterwait(const std::string& kind, unsigned seed, const s
     std::unique_ptr<FilteringAlgorithm> f = make(kind, seed);
     if (!f) return "bad-kind";
     g_steps.store(0, std::memory_order_relaxed);
+    g_booted.store(true, std::memory_order_relaxed);
     if (!f->boot()) return "boot-failed";
     if (phase == "rebooted") { f->run(); let_it_step(3); f->reboot(); usleep(200 + seed % 300); }
     else if (phase != "neverrun") return "bad-phase";
@@ -378,7 +457,17 @@ int main() {
             std::string out2;
             try { out2 = run_afterwait(k2, s2, phase, action); }
             catch (const std::exception& e) { out2 = std::string("throw:") + e.what(); }
-            std::cout << out2 << "\n" << std::flush;
+            std::cout << fin(out2) << "\n" << std::flush;
+            continue;
+        }
+        if (op == "exit") {
+            // exit <kind> <seed> teardown|expire
+            std::istringstream is5(line);
+            std::string o5, k5, m5; unsigned s5 = 0;
+            is5 >> o5 >> k5 >> s5 >> m5;
+            std::string out5;
+            try { out5 = run_exit(k5, s5, m5); } catch (const std::exception& e) { out5 = std::string("throw:") + e.what(); }
+            std::cout << fin(out5) << std::endl;
             continue;
         }
         if (op == "initfail") {
@@ -387,7 +476,7 @@ int main() {
             is4 >> o4 >> k4 >> s4;
             std::string out4;
             try { out4 = run_initfail(k4, s4); } catch (const std::exception& e) { out4 = std::string("throw:") + e.what(); }
-            std::cout << out4 << "\n" << std::flush;
+            std::cout << fin(out4) << "\n" << std::flush;
             continue;
         }
         if (op == "extlog") {
@@ -396,14 +485,14 @@ int main() {
             is3 >> o3 >> k3 >> s3 >> d3;
             std::string out3;
             try { out3 = run_extlog(k3, s3, d3); } catch (const std::exception& e) { out3 = std::string("throw:") + e.what(); }
-            std::cout << out3 << "\n" << std::flush;
+            std::cout << fin(out3) << "\n" << std::flush;
             continue;
         }
         if (op != "race") { std::cout << "bad-op\n"; continue; }
         std::string out;
         try { out = run_case(kind, seed, rounds, pause, logdir); }
         catch (const std::exception& e) { out = std::string("throw:") + e.what(); }
-        std::cout << out << "\n" << std::flush;
+        std::cout << fin(out) << "\n" << std::flush;
     }
     return 0;
 }
